@@ -1,8 +1,8 @@
 #!/bin/bash
 # tools/run_seeded.sh   run every seeded change under /verif/seeded against the check of its property (quick tier)
-cd /verif
+cd "$(dirname "$0")/.."
 OUT=seeded/RESULTS.md
-echo "# Seeded changes vs. checks (quick tier, $(git -C /verif rev-parse --short HEAD))" > $OUT
+echo "# Seeded changes vs. checks (quick tier, $(git rev-parse --short HEAD))" > $OUT
 echo "" >> $OUT
 echo "| seeded change | property | result | signature |" >> $OUT
 echo "|---|---|---|---|" >> $OUT
